@@ -481,7 +481,7 @@ def gen_cli():
         else:
             raise Unsupported("run: unknown statement " + u)
     last = rs[-1]
-    want_last = ("if self.output_file:\n    with open(self.output_file, 'w', encoding='utf-8') as f:\n        f.write(output)\n"
+    want_last = ("if self.output_file:\n    output.encode('utf-8')\n    with open(self.output_file, 'w', encoding='utf-8') as f:\n        f.write(output)\n"
                  "    return f'Output is written to {self.output_file}'\nelse:\n    return output")
     if ast.unparse(last) != want_last:
         raise Unsupported("run: the output branch changed: " + ast.unparse(last))
